@@ -541,6 +541,11 @@ class Executor:
         try:
             v = getattr(base, attr)
         except AttributeError:
+            if getattr(type(base), "_pyvc_pure_model", False) or isinstance(base, Opaque):
+                # a library MODEL that does not cover this member says nothing about the real object: undecided, never a
+                # Python AttributeError on the path (found with seed C20-3: Path.is_file() on the path model raised
+                # inside the except arm and the 'uncaught exception' clause then held trivially)
+                self.unsupported(node, f"member {attr} is not covered by the library model {type(base).__name__}")
             raise PathRaise(AttributeError, f"{base!r}.{attr}")
         if isinstance(base, (str, dict, list, tuple, float, int)) and callable(v) and not isinstance(base, enum.Enum):
             return BoundMethod(base, attr)
